@@ -91,6 +91,17 @@ CHECKS = {
               "Nyquist-free states with equality for the non-dissipative classes on odd grids / Nyquist-free states; generic/normalized/difficulty linear "
               "steppers on fine grids; wave energy before/after; rollouts with the per-step norm ratio validated by TLC (Trace_Monitor)."),
         note="TLC, numpy norms; tolerance 1e-12 on moduli/ratios (1e-9 for the generic family at dt = 1e6)"),
+    "C12": dict(
+        category="model_checking", design_ref="4/C12", engine="forcing",
+        technique="TLC machine of the laminar Kolmogorov solution (MC_Forcing: forcing spectrum, no self-interaction via Nonlin, recurrence in Q[E,z,1/z]) + replay of every state as ex.repeat(stepper, n)(zeros)",
+        text=("MC_Forcing states the documented forcing as a sparse spectrum (3D velocity: gamma sin(k w x_1) in channel 0; 2D vorticity: -k w gamma "
+              "cos(k w x_1)), and TLC checks that it is Hermitian, representable for 1 <= k < N/2, invariant exactly along the non-forced axes, that "
+              "the convective term (Nonlin.tla) vanishes on it, and that iterating u' = E^2 u + dt phi1 f from rest gives f (E^(2n) - 1)/z. Every "
+              "state (kind, N incl. 49/98, injection mode, steps) is replayed with KolmogorovFlowVelocity / KolmogorovFlowVorticity / "
+              "GeneralVorticityConvectionStepper for orders 1-4, L in {2pi, 1, 3, ...}, random gamma/nu/drag/dt/convection scale, comparing the whole "
+              "field (channel, direction, wavenumber, amplitude, phase, zero elsewhere). ForcedStepper is compared with step(u + dt f) and the "
+              "unforced step for every public class, physical and Fourier entry points."),
+        note="TLC, numpy expm1, tolerance 1e-9 of the laminar amplitude; uses MC_ETDRK.RowSumOK (C02) for 'every order'"),
     "C14": dict(
         category="model_checking", design_ref="4/C14", engine="rollout",
         technique="TLC state machine of rollout/repeat/windows (MC_Rollout) + replay of every terminal state + TLC trace validation (Trace_Rollout) of recorded executions",
@@ -162,6 +173,8 @@ def main():
              "kind_free_text": "TLC decision tables + replay + hook-trace validation"},
             {"name": "nonlin", "path": "spec/Nonlin.tla spec/MC_Nonlin.tla harness/nonlin.py harness/checks/c03.py", "serves_properties": ["C03", "C08", "C09", "C10"],
              "kind_free_text": "TLC exact sparse-spectrum machine + spec->code replay"},
+            {"name": "forcing", "path": "spec/MC_Forcing.tla harness/checks/c12.py", "serves_properties": ["C12"],
+             "kind_free_text": "TLC laminar-solution machine + spec->code replay"},
             {"name": "rollout", "path": "spec/MC_Rollout.tla spec/Trace_Rollout.tla harness/checks/c14.py", "serves_properties": ["C14"],
              "kind_free_text": "TLC state machine + replay + trace validation"},
         ],
